@@ -213,6 +213,22 @@ impl Ctx {
     /// A refuting observation. `signature` identifies the failing input / call site / history
     /// class exactly; `detail` carries the literal case for the replay file.
     pub fn violation(&self, signature: &str, detail: Value) {
+        // Verdict discipline: a child process that was ended by the wall-clock watchdog has shown nothing about the
+        // property (a loaded machine, a slow tool on a huge input); lanes that forget to single that case out must not
+        // turn it into a violation. Only the lanes that judge CPU time used (signatures with "hang" / "unbounded-work")
+        // may report on a watchdog expiry.
+        fn mentions_timeout(v: &Value, under_exit_key: bool) -> bool {
+            match v {
+                Value::String(s) => under_exit_key && s == "timeout",
+                Value::Object(m) => m.iter().any(|(k, x)| mentions_timeout(x, k.to_lowercase().contains("exit"))),
+                Value::Array(a) => a.iter().any(|x| mentions_timeout(x, under_exit_key)),
+                _ => false,
+            }
+        }
+        if !signature.contains("hang") && !signature.contains("unbounded-work") && mentions_timeout(&detail, false) {
+            self.inconclusive(&format!("{}: a child process was ended by the watchdog (not judged)", signature));
+            return;
+        }
         let mut g = self.inner.lock().unwrap();
         if let Some(k) = self.known.iter().find(|k| k.status == "known" && k.signature == signature) {
             let _ = k;
